@@ -170,6 +170,12 @@ func (c CurlyRouter) computeWebserviceScore(requestTokens []string, tokens []str
 			if len(each) == 0 {
 				return false, score
 			}
+			// a regular expression of the parameter must be satisfied
+			if colon := strings.Index(other, ":"); colon != -1 {
+				if matchesToken, _ := c.regularMatchesPathToken(other, colon, each); !matchesToken {
+					return false, score
+				}
+			}
 			score += 1
 		} else {
 			// not a parameter
